@@ -434,6 +434,12 @@ func (v *Verifier) BatchVerify(sigs []*Signature, publicKeys []*PublicKey, messa
 
 		return signatures.ErrInvalidArgument.WithMessage("some public keys are nil or identity")
 	}
+	if sliceutils.Any(sigs, func(sig *Signature) bool {
+		return sig == nil || sig.R == nil || sig.S == nil || sig.R.IsZero() || sig.S.IsZero()
+	}) {
+
+		return signatures.ErrVerificationFailed.WithMessage("some signature elements are nil/zero")
+	}
 	curve := k256.NewCurve()
 	sf := k256.NewScalarField()
 	var err error
